@@ -81,7 +81,17 @@ def compare(off, on, recs, mode, q, stage):
     if len(off) != len(on):
         recs.append({"key": "typographer-changes-token-count", "stage": stage})
         return
+    in_auto = 0
     for a, b in zip(off, on):
+        if a.type == "link_open" and a.info == "auto":
+            in_auto += 1
+        elif a.type == "link_close" and a.info == "auto":
+            in_auto -= 1
+        elif a.type == "text" and in_auto > 0 and a.content != b.content:
+            # narrow class for known-findings: the only change is a straight quote replaced in place (smartquotes has no autolink guard)
+            cls = "quote-substitution" if (mode != "replacements" and _match(a.content, b.content, q)) else "other"
+            recs.append({"key": "typographer-touches-autolink-text", "stage": stage, "cls": cls})
+            return
         if _shape(a) != _shape(b):
             recs.append({"key": "typographer-changes-structure", "stage": stage, "ttype": a.type})
             return
